@@ -235,9 +235,23 @@ func WorkerMain(t *testing.T) {
 	seenNT := map[uint64]struct{}{}
 	knownSeen := map[string]bool{}
 
+	maxSysMB := uint64(envInt("VERIF_MAX_SYS_MB", 3500))
+
 	for n := int64(0); n < maxRuns; n++ {
 		if time.Since(started) > budget {
 			break
+		}
+
+		// goroutines left blocked by finished bubbles (goleveldb, timers) keep their memory: the driver
+		// recycles worker processes, and a worker that grew too much ends its slice early
+		if n&15 == 15 {
+			var ms runtime.MemStats
+
+			runtime.ReadMemStats(&ms)
+
+			if ms.Sys>>20 > maxSysMB {
+				break
+			}
 		}
 
 		idx := from + uint64(n)*stride
